@@ -11,6 +11,15 @@ buffer.go (build tag `verif`); `yid` gives the mark.  Byte copies are one step
 per byte (constructors ending in `c`, visible to the real scheduler only at
 their first byte).
 
+`ReadFrom(r)` (call `rfrom`, marks 110, 112, 111) is modelled whole: the loop
+`isDone` — `waitForWriteSpace(1)` — load of the consumer cursor and computation
+of the free, contiguous part of the ring (at most one read block) — `r.Read`
+into it (the reader is a script of byte counts) — `WriteCommit(n)`, and the
+deferred `Close` on every return.  (Repository commit 8f682d1; before it the
+loop waited for a whole read block — finding F3.)  `WriteTo` is the mirror
+image over `ReadPeek`/`ReadCommit` with no shared access of its own and is
+exercised free-running only.
+
 Ghost state: the source stream `cfg.src` (the producer's k-th written byte is
 `src k`) and `gotRev`, the bytes the consumer obtained (newest first).
 
@@ -28,6 +37,7 @@ open Mqtt.Iface.Ring
 structure Cfg where
   k : Nat
   src : Nat → UInt8
+  rblock : Nat := 8192      -- defaultReadBlockSize: `ReadFrom` offers its reader at most this much
 
 def Cfg.size (cfg : Cfg) : Nat := 2 ^ cfg.k
 /-- `pos & bf.mask` -/
@@ -72,6 +82,12 @@ inductive Pc where
   | c50 (n ppos : Nat) | c51 (n : Nat) | c52 (n : Nat) | c53 (n : Nat)
   -- the producer fills the slice WriteWait returned
   | f0 (start len j : Nat)
+  -- ReadFrom(r): `tot` bytes read so far, `ms` the rest of the reader's script
+  | g110 (tot : Nat) (ms : List Nat)                 -- loop head: isDone, then waitForWriteSpace(1)
+  | g112 (tot : Nat) (ms : List Nat) (ppos : Nat)    -- cseq load, count, clamp to the ring end
+  | g111 (tot : Nat) (ms : List Nat) (start len : Nat)    -- r.Read(bf.buf[pstart:pend]), len = pend - pstart
+  | g111c (tot : Nat) (ms : List Nat) (start n j : Nat)   -- the reader fills n bytes
+  | g111r (tot : Nat) (ms : List Nat) (n : Nat)           -- r.Read has returned (n, nil): total += n, WriteCommit(n)
   -- Read(p), |p| = n;  b2 = second copy branch (marks 68–72 instead of 63–67)
   | r60 (n : Nat) | r61 (n : Nat) | r62 (n cpos : Nat)
   | r63c (b2 : Bool) (cpos k j : Nat) (acc : List UInt8)
@@ -104,6 +120,7 @@ def Pc.yid : Pc → Option Nat
   | .w43 _ => some 43 | .w44 _ => some 44 | .w45 _ => some 45
   | .c50 _ _ => some 50 | .c51 _ => some 51 | .c52 _ => some 52 | .c53 _ => some 53
   | .f0 _ _ _ => none
+  | .g110 _ _ => some 110 | .g112 _ _ _ => some 112 | .g111 _ _ _ _ => some 111 | .g111c _ _ _ _ _ => none | .g111r _ _ _ => none
   | .r60 _ => some 60 | .r61 _ => some 61 | .r62 _ _ => some 62
   | .r63c b _ _ j _ => if j = 0 then some (if b then 68 else 63) else none
   | .r64 b _ _ => some (if b then 69 else 64) | .r65 b _ _ => some (if b then 70 else 65)
@@ -199,8 +216,30 @@ def Sh.resume (sh : Sh) (m : Mx) (me : Tid) : Option Sh :=
 def Th.goto (th : Th) (pc : Pc) : Th := { th with pc := pc }
 def Th.ret (th : Th) (r : Res) : Th := { th with pc := .idle, cur := none, res := some r }
 
-/-- return of `waitForWriteSpace` with an error -/
-def wfsErr (th : Th) (e : Err) : Th := th.ret { err := e }
+/-- `ReadFrom` returns `(n, e)`: its deferred `Close` runs first (the frame `rfret n e` keeps the
+values; the slice and the fill count were locals of `ReadFrom`) -/
+def rfExit (th : Th) (n : Nat) (e : Err) : Th :=
+  { th with cur := some (.rfret n e), slice := none, filled := 0 }.goto .x10
+
+/-- return of `waitForWriteSpace` with an error: into `ReadFrom` (`return 0, err`), into the
+`WriteCommit` called by `ReadFrom` (`return total, err`), or to the caller of the ring -/
+def wfsErr (th : Th) (e : Err) : Th :=
+  match th.cur with
+  | some (.rfrom _ _) => rfExit th 0 e
+  | some (.rfcommit tot _) => rfExit th tot e
+  | _ => th.ret { err := e }
+
+/-- return of `WriteCommit(n)`: into the loop of `ReadFrom`, or to the caller of the ring -/
+def wcRet (th : Th) (n : Nat) : Th :=
+  match th.cur with
+  | some (.rfcommit tot ms) => { th with cur := some (.rfrom tot ms) }.goto (.g110 tot ms)
+  | _ => th.ret { n := n }
+
+/-- return of `Close`: the deferred `Close` of `ReadFrom` is followed by `ReadFrom`'s own return -/
+def closeRet (th : Th) : Th :=
+  match th.cur with
+  | some (.rfret n e) => th.ret { n := n, err := e }
+  | _ => th.ret {}
 
 /-- return `(ppos, n, nil)` of `waitForWriteSpace` into its caller -/
 def wfsOk (cfg : Cfg) (th : Th) (ppos n : Nat) : Th :=
@@ -213,6 +252,8 @@ def wfsOk (cfg : Cfg) (th : Th) (ppos n : Nat) : Th :=
     else
       { th with slice := some (ppos, n) }.ret { n := n, off := ppos }
   | some (.wcommit _) => th.goto (.c50 n ppos)
+  | some (.rfrom tot ms) => th.goto (.g112 tot ms ppos)
+  | some (.rfcommit _ _) => th.goto (.c50 n ppos)
   | _ => th.ret { err := .nouse }
 
 /-- entry of `waitForWriteSpace(n)`: the size check, up to mark 30 -/
@@ -233,6 +274,9 @@ def startCall (cfg : Cfg) (th : Th) (call : Call) : Th :=
     match th.slice with
     | some (start, len) => { th with filled := 0 }.goto (.f0 start len 0)
     | none => th.ret { err := .nouse }
+  | .rfrom tot ms => { th with slice := none, filled := 0 }.goto (.g110 tot ms)
+  | .rfcommit _ _ => th.ret { err := .nouse }
+  | .rfret _ _ => th.ret { err := .nouse }
   | .read n => { th with view := .none, pending := [] }.goto (.r60 n)
   | .peek n =>
     let th := { th with view := .none, pending := [] }
@@ -269,7 +313,7 @@ def tstep (cfg : Cfg) (sh : Sh) (me : Tid) (th0 : Th) : Option (Sh × Th) :=
   | .x13 => some (sh.unlock .pL, th.goto .x14)
   | .x14 => (sh.lock .cL me).map (·, th.goto .x15)
   | .x15 => some (sh.bcast .cL, th.goto .x16)
-  | .x16 => some (sh.unlock .cL, th.ret {})
+  | .x16 => some (sh.unlock .cL, closeRet th)
   -- Len
   | .l20 => some (sh, th.goto (.l21 sh.cseq))
   | .l21 cpos =>
@@ -310,12 +354,34 @@ def tstep (cfg : Cfg) (sh : Sh) (me : Tid) (th0 : Th) : Option (Sh × Th) :=
   | .c50 n ppos => some ({ sh with pseq := ppos + n }, { th with slice := none, filled := 0 }.goto (.c51 n))
   | .c51 n => (sh.lock .cL me).map (·, th.goto (.c52 n))
   | .c52 n => some (sh.bcast .cL, th.goto (.c53 n))
-  | .c53 n => some (sh.unlock .cL, th.ret { n := n })
+  | .c53 n => some (sh.unlock .cL, wcRet th n)
   -- filling the reserved slice
   | .f0 start len j =>
     if j < len then
       some ({ sh with buf := wr sh.buf (cfg.idx (start + j)) (cfg.src (start + j)) }, th.goto (.f0 start len (j + 1)))
     else some (sh, { th with filled := len }.ret { n := len, off := start })
+  -- ReadFrom
+  | .g110 tot ms =>
+    if sh.done then some (sh, rfExit th tot .eof)
+    else some (sh, enterWfs cfg { th with cur := some (.rfrom tot ms) } 1)
+  | .g112 tot ms ppos =>
+    -- cnt := bf.size - (start - bf.cseq.get()); at most one read block; not past the end of the ring
+    let free := cfg.size - (ppos - sh.cseq)
+    let cnt := min cfg.rblock free
+    let pstart := cfg.idx ppos
+    let len := if pstart + cnt > cfg.size then cfg.size - pstart else cnt
+    some (sh, th.goto (.g111 tot ms ppos len))
+  | .g111 tot ms start len =>
+    if ms = [] then some (sh, rfExit th tot .eof)                        -- the reader is at its end: (0, io.EOF)
+    else some (sh, th.goto (.g111c tot ms.tail start (min (ms.headD 0) len) 0))   -- it returns min m len bytes
+  | .g111c tot ms start n j =>
+    if j < n then
+      some ({ sh with buf := wr sh.buf (cfg.idx (start + j)) (cfg.src (start + j)) }, th.goto (.g111c tot ms start n (j + 1)))
+    else some (sh, th.goto (.g111r tot ms n))
+  | .g111r tot ms n =>
+    if 0 < n then
+      some (sh, enterWfs cfg { th with filled := n, cur := some (.rfcommit (tot + n) ms) } n)   -- total += n; WriteCommit(n)
+    else some (sh, th.goto (.g110 tot ms))
   -- Read
   | .r60 n => if sh.done then some (sh, th.goto .l20) else some (sh, th.goto (.r61 n))
   | .r61 n => some (sh, th.goto (.r62 n sh.cseq))
@@ -399,7 +465,7 @@ source, `Proofs.Ring.lockFacts_steps` with what `tstep` does at each mark. -/
 def lockFacts : List (Nat × List Nat) := [
   (0, [10, 11, 1000, 12, 1006, 13, 1002, 14, 1001, 15, 1007, 16, 1003, 1100]),
   (1, [20, 1401, 21, 1400, 1100]),
-  (2, [1200, 110, 1404, 1100, 1311, 1100, 111, 1310, 1100, 1100]),
+  (2, [1200, 110, 1404, 1100, 1311, 1100, 112, 1401, 111, 1310, 1100, 1100]),
   (3, [1200, 120, 1404, 1100, 1306, 121, 1100, 1308, 1100, 1100]),
   (4, [60, 1404, 1301, 1100, 61, 1401, 62, 1400, 63, 64, 1403, 65, 1000, 66, 1006, 67, 1002, 1100, 68, 69, 1403, 70, 1000, 71, 1006, 72, 1002, 1100, 73, 1001, 74, 1400, 1400, 75, 1404, 76, 1003, 1100, 77, 1005, 78, 79, 1003]),
   (5, [40, 1404, 1100, 1311, 1100, 41, 42, 1402, 43, 1001, 44, 1007, 45, 1003, 1100]),
@@ -413,6 +479,7 @@ def lockFacts : List (Nat × List Nat) := [
 /-- one program counter per mark, in the order of `lockFacts` (locals irrelevant for the lock operation performed) -/
 def markPcs : List Pc := [
   .x10, .x11, .x12, .x13, .x14, .x15, .x16, .l20, .l21 0,
+  .g110 0 [], .g112 0 [] 0, .g111 0 [] 0 0,
   .r60 0, .r61 0, .r62 0 0, .r63c false 0 0 0 [], .r64 false 0 [], .r65 false 0 [], .r66 false 0 [], .r67 false 0 [],
   .r63c true 0 0 0 [], .r64 true 0 [], .r65 true 0 [], .r66 true 0 [], .r67 true 0 [],
   .r73 0 0, .r74 0 0, .r75 0 0, .r76 0 0, .r77 0 0, .r78 0 0, .r79 0,
